@@ -31,7 +31,8 @@ REQUIRED = ["Sqfs.C04.readNumber_exact_or_error", "Sqfs.C04.number_roundtrip", "
             "Sqfs.C04.gnu_long_name_member", "Sqfs.C04.pax_record_spec", "Sqfs.C04.retarget_spec",
             "Sqfs.C04.pax_record_roundtrip", "Sqfs.C04.pax_payload_roundtrip", "Sqfs.C04.pax_sparse_map_replaces",
             "Sqfs.C04.hardlink_filter_spec", "Sqfs.C04.cut_record_is_error", "Sqfs.C04.pax_number_exact_or_error",
-            "Sqfs.C04.pax_sparse_map_spec", "Sqfs.C04.subdir_selection_spec", "Sqfs.C04.fixpoint_sqfs2tar_options"]
+            "Sqfs.C04.pax_sparse_map_spec", "Sqfs.C04.subdir_selection_spec", "Sqfs.C04.fixpoint_sqfs2tar_options",
+            "Sqfs.C04.libarchive_key_roundtrip", "Sqfs.C04.libarchive_xattr_roundtrip"]
 EXCLUDE = ("lib/tar/src/write_header.c", "lib/tar/src/read_header.c")     # #included by the harness (static helpers)
 U64 = 1 << 64
 
